@@ -157,11 +157,12 @@ class Pipeline:
 
 	REBUILD_EVERY = {'in-memory': 2000, 'on-disk': 400}
 
-	def __init__(self, mode: str, base_tmp: str, wall_cap: float = CAP_S, post: Any = None) -> None:
+	def __init__(self, mode: str, base_tmp: str, wall_cap: float = CAP_S, post: Any = None, share: tuple[str, str] | None = None) -> None:
 		assert mode in ('in-memory', 'on-disk')
 		self.mode = mode
 		self.base_tmp = base_tmp
 		self.wall_cap = wall_cap
+		self.share = share  # (project dir, cache dir) of another Pipeline
 		self.post = post  # optional extra oracle: post(mode, data, outcome) may turn an outcome into a violation (with a key)
 		self.n = 0
 		self.runs = 0
@@ -175,8 +176,17 @@ class Pipeline:
 		self.root = tempfile.mkdtemp(prefix=f'c07-{self.mode}-', dir=self.base_tmp)
 		cache_dir = os.path.join(self.root, 'cache')
 		os.makedirs(cache_dir)
+		if self.share is not None:  # a second App over an existing project and cache directory (run-to-run histories)
+			cache_dir = self.share[1]
 		if self.mode == 'in-memory':
-			self.app: Any = common.MemApp(cache_dir, py2cpp_definitions())
+			from rogw.tranp.app.dir import tranp_dir
+			from rogw.tranp.app.env import SourceEnvPath
+			from rogw.tranp.lang.module import to_fullyname
+			# imported sibling modules of a multi-file input live on disk below `proj`
+			self.proj = os.path.join(self.root, 'proj')
+			os.makedirs(os.path.join(self.proj, 'fz'))
+			self.app: Any = common.MemApp(cache_dir, {**py2cpp_definitions(),
+				to_fullyname(SourceEnvPath): lambda: SourceEnvPath([self.proj, tranp_dir(), os.path.join(tranp_dir(), 'rogw/tranp/compatible/libralies')])})
 			self.resolve = self.app.resolve
 		else:
 			self._build_disk(cache_dir)
@@ -192,8 +202,8 @@ class Pipeline:
 		from rogw.tranp.module.types import ModulePaths
 		from rogw.tranp.providers.module import module_meta_factory
 		from rogw.tranp.data.meta.types import ModuleMetaFactory
-		self.proj = os.path.join(self.root, 'proj')
-		os.makedirs(os.path.join(self.proj, 'fz'))
+		self.proj = self.share[0] if self.share is not None else os.path.join(self.root, 'proj')
+		os.makedirs(os.path.join(self.proj, 'fz'), exist_ok=True)
 		self.module_paths: Any = ModulePaths()
 		defs = common.tranp_definitions(cache_dir, {
 			**py2cpp_definitions(),
@@ -211,6 +221,24 @@ class Pipeline:
 		shutil.rmtree(self.root, ignore_errors=True)
 		self._build()
 
+	def load_existing(self, module_name: str) -> Outcome:
+		"""load + transpile a module file that already exists below the project directory (second run of a history)"""
+		from rogw.tranp.module.modules import Modules
+		from rogw.tranp.module.types import ModulePath
+		old_cwd = os.getcwd()
+		os.chdir(self.proj)
+		try:
+			self.module_paths.append(ModulePath(module_name, language='py'))
+			module = self.resolve(Modules).load(module_name)
+			self.transpiler.transpile(module.entrypoint)
+			return Outcome('ok')
+		except BaseException as e:  # noqa: BLE001
+			if is_app_error(e):
+				return Outcome('error', class_name(e), '', _safe_str(e))
+			return Outcome('escape', class_name(e), escape_key(e, self.mode), _safe_str(e), frames=tranp_frames(e)[-6:])
+		finally:
+			os.chdir(old_cwd)
+
 	def close(self) -> None:
 		shutil.rmtree(self.root, ignore_errors=True)
 
@@ -218,14 +246,27 @@ class Pipeline:
 
 	def _load_and_transpile(self, data: str | bytes) -> None:
 		from rogw.tranp.module.modules import Modules
-		# `__SELF__` in an input stands for the module's own path (self-imports / one-module import cycles)
+		# `__SELF__` in an input stands for the module's own path (self-imports / one-module import cycles).
+		# Multi-file input: `<main text>` then, per sibling, a line `#%%FILE <name>` (or `#%%MISSING <name>`: no file is written) and its
+		# text; `__M__<name>` in any text stands for the sibling's module path. Siblings are always files below the project directory.
+		self.n += 1
+		name = f'm{self.n}'
+		if isinstance(data, str) and '\n#%%' in data:
+			parts = data.split('\n#%%')
+			data = parts[0] + '\n'
+			sub = lambda t: t.replace('__M__', f'fz.{name}_')  # noqa: E731
+			data = sub(data)
+			for part in parts[1:]:
+				head, _, body = part.partition('\n')
+				kind, _, sib = head.partition(' ')
+				if kind == 'FILE':
+					with open(os.path.join(self.proj, 'fz', f'{name}_{sib.strip()}.py'), 'wb') as f:
+						f.write(sub(body).encode('utf-8', errors='replace'))
 		if self.mode == 'in-memory':
 			src = data.decode('utf-8', errors='replace') if isinstance(data, bytes) else data
 			module = self.app.module(src.replace('__SELF__', self.app.main))
 		else:
 			from rogw.tranp.module.types import ModulePath
-			self.n += 1
-			name = f'm{self.n}'
 			raw = data if isinstance(data, bytes) else data.encode('utf-8', errors='replace')
 			raw = raw.replace(b'__SELF__', f'fz.{name}'.encode())
 			with open(os.path.join(self.proj, 'fz', f'{name}.py'), 'wb') as f:
